@@ -6,7 +6,11 @@ import (
 )
 
 // applyExclusions switches on the generator's domain exclusions for findings listed via=domain.
-func applyExclusions(qc *g7lib.QCfg) {}
+func applyExclusions(qc *g7lib.QCfg) {
+	qc.NoHavingExprKey = true
+	qc.NoInSubNullItem = true
+	qc.NoCoalesceDecMix = true
+}
 
 // classify gives a disagreement its signature: the failure mode plus the input class (join /
 // subquery / grouping / set-operator features). Known findings have dedicated matchers first.
